@@ -1,16 +1,20 @@
 /-
 C04 — LCOV input fidelity. Property theorems about the byte machine `Lcov.parse` (the model of
-`parse_lcov`), proved for all inputs. Helper lemmas: GrcovModel/Lemmas/Lcov.lean.
+`parse_lcov`), proved for all inputs. Helper lemmas: GrcovModel/Lemmas/Lcov.lean,
+Lemmas/LcovFidelity.lean (one lemma per record kind, glued by `run_append`) and
+Lemmas/LcovFunctions.lean (the waiting-FNDA invariant).
 
-Status of the full-strength statement ("parse (render ast) = sem ast for every well-formed
-serialisation"): the record-application layer is proved for every record order
-(`C04_branch_vector`, `C04_branch_order_irrelevant`, `C04_da_sum`), the byte layer is proved per
-record kind for DA (`C04_da_record_bytes`) for every digit string, LF and CRLF; the remaining
-record kinds are exercised by the correspondence run against the independent semantics `sem`
-(harness/src/lcov.rs) and are named `…_partial` until their byte lemmas are in.
-One guard is forced by the code: an FNDA must come after its FN (known finding C04-fnda-before-fn).
+The full-strength statement is `C04_fidelity`: for every well-formed tracefile AST – any record
+order, FNDA records before or after the FN record of their function, DA records with or without a
+checksum field – `parse (render ast) = sem ast`, where `sem` (Spec/Lcov.lean) is order-free.
+`C04_fnda_without_fn_rejected` is the other half of the FN/FNDA rule (an FNDA whose function is
+declared nowhere in its section is the reader's "FN record missing" error), `C04_order_irrelevant`
+the permutation corollary. The former findings C04-fnda-before-fn and
+C04-da-checksum-read-as-record are repaired in the code; their witnesses are examples below and
+corpus cases of the correspondence run.
 -/
-import GrcovModel.Lemmas.LcovFidelity
+import GrcovModel.Lemmas.LcovFunctions
+import GrcovModel.Lemmas.LcovWriter
 namespace Grcov.Props.C04
 open Grcov AList Grcov.Lcov Grcov.Lcov.Spec
 
@@ -78,33 +82,129 @@ example : parse true
     = .ok [([97, 46, 99], { lines := [(1, U64MAX)], branches := [(3, [false, false, true])],
                             functions := [([102], ⟨7, true⟩)] })] := by decide +kernel
 
-/-- **Fidelity, byte level.** For every list of well-formed sections (any record order, duplicate
-DA/BRDA records, negative counts, `-`/0/positive taken counts, any block numbers, any digit
-strings incl. leading zeros, names over arbitrary bytes other than CR/LF (decoded as UTF-8),
-TN:/summary/other records and blank lines anywhere, text after `end_of_record`), rendered with LF
-or CRLF line ends, with branch parsing on or off: the reader returns exactly one record per
-section, equal to what the records say (`semAll`: `applyRec` folded over the section).
-Guard (the `_partial`): `semAll` is defined, i.e. every FNDA record comes after the FN record of
-its function – the one order dependence of the code (known finding C04-fnda-before-fn). -/
-theorem C04_fidelity_partial (branch : Bool) (eol : Bytes) (heol : eol = [LF] ∨ eol = [CR, LF])
+/-- Byte layer, DA with the optional checksum field: `DA:<digits>,<digits>[,<text>]` followed by LF
+or CRLF commits exactly (line, count) – the checksum text (any bytes other than LF: it may start with
+`e`, `S`, `D`, `F`, `B`, a digit or `-` and contain commas) is skipped, never read as a record. -/
+theorem C04_da_checksum_record_bytes (branch : Bool) (a : Acc) (l c : Digits) (ck : Option Bytes)
+    (eol : Bytes) (hl : l.WF U32MAX) (hc : c.WF U64MAX) (hk : noLF (checksumBytes ck))
+    (heol : eol = [LF] ∨ eol = [CR, LF]) :
+    run branch ⟨.dispatch, a⟩ (renderRec eol (.da l c ck)) = ⟨.dispatch, commitLine a l.val c.val⟩ :=
+  da_ck_record_bytes branch a l c ck eol hl hc hk heol
+
+/-- **Fidelity.** For every list of well-formed sections (any record order – in particular FNDA
+records before or after the FN record of their function –, duplicate DA/BRDA records, DA records
+with or without a checksum field, negative counts, `-`/0/positive taken counts, any block numbers,
+any digit strings incl. leading zeros, names over arbitrary bytes other than CR/LF (decoded as
+UTF-8), TN:/summary/other records and blank lines anywhere, text after `end_of_record`), rendered
+with LF or CRLF line ends, with branch parsing on or off: the reader returns exactly one record per
+section, equal to what the section says (`sem`: clamped DA sums, taken iff some BRDA says so,
+executed iff some FNDA has a non-zero count; no clause looks at the position of a record).
+`WellFormed`: every record is well-formed text, every function is declared once per section and
+every FNDA names a function declared somewhere in the same section. -/
+theorem C04_fidelity (branch : Bool) (eol : Bytes) (heol : eol = [LF] ∨ eol = [CR, LF])
+    (secs : List Section) (hs : ∀ s ∈ secs, s.WellFormed) :
+    parse branch (render eol secs) = .ok (secs.map fun s => (utf8Lossy s.sf, sem branch s)) :=
+  parse_render branch eol heol secs hs
+
+/-- The other half of the FN/FNDA rule: if some FNDA record of a section names a function that no
+FN record of that section declares, the reader rejects the tracefile with the error "FN record
+missing" (`Err(Parse)`) at the `end_of_record` of that section – after any well-formed sections,
+whatever bytes follow. -/
+theorem C04_fnda_without_fn_rejected (branch : Bool) (eol : Bytes) (heol : eol = [LF] ∨ eol = [CR, LF])
+    (secs : List Section) (hs : ∀ s ∈ secs, s.WellFormed) (s : Section) (hw : s.WF) (nm : Bytes)
+    (h1 : nm ∈ fndaNames s.recs) (h2 : nm ∉ fnNames s.recs) (rest : Bytes) :
+    parse branch (render eol secs ++ renderSection eol s ++ rest) = .err "Parse" :=
+  parse_fnda_without_fn branch eol heol secs hs s hw nm h1 h2 rest
+
+/-- Fidelity for sections that declare a function several times (outside `WellFormed`; grcov logs
+"FN duplicated"): the reader's answer is the record-by-record reading `semAll` (`applyRec` folded
+over the section: the last FN of a name wins and takes what FNDA records were waiting for it),
+whenever nothing is waiting at `end_of_record`. -/
+theorem C04_fidelity_record_by_record (branch : Bool) (eol : Bytes) (heol : eol = [LF] ∨ eol = [CR, LF])
     (secs : List Section) (hs : ∀ s ∈ secs, s.WF) (rs : List (Bytes × Cov))
     (hsem : semAll branch secs = some rs) :
     parse branch (render eol secs) = .ok rs := by
   have := file_bytes branch eol heol secs hs rs hsem [] none
   unfold parse
-  have e : ({} : St) = ⟨.dispatch, { results := [], curFile := none, cur := {} }⟩ := rfl
+  have e : ({} : St) = ⟨.dispatch, { results := [], curFile := none, cur := {}, pending := [] }⟩ := rfl
   rw [e, this]
   simp [finish]
 
+/-- What a section says about a line, wherever its DA records stand and whatever checksum fields
+they carry: the sum of the counts of its DA records (negative counts read as 0), clamped at 2^64-1. -/
+theorem C04_sem_line (branch : Bool) (s : Section) (l : Nat) (h : ∃ r ∈ daPairs s.recs, r.1 = l) :
+    get? (sem branch s).lines l
+      = some (min ((((daPairs s.recs).filter fun r => decide (r.1 = l)).map (·.2)).sum) U64MAX) :=
+  C04_da_sum (daPairs s.recs) l h
+
+/-- What a section says about a branch: taken iff some BRDA record of its (line, branch number) has
+a positive count, whatever the order and the block numbers. -/
+theorem C04_sem_branch (s : Section) (l i : Nat) :
+    (vecAt (sem true s).branches l).getD i false
+      = (brdaTriples s.recs).any fun r => decide (r.1 = l) && decide (r.2.1 = i) && r.2.2 :=
+  C04_branch_vector (brdaTriples s.recs) l i
+
+/-- What a section says about a function, wherever its FN and FNDA records stand: declared iff
+some FN record names it; executed iff some FNDA record of the section names it with a non-zero
+count. -/
+theorem C04_function_executed (branch : Bool) (s : Section) (nm : Bytes) :
+    get? (sem branch s).functions nm
+      = (get? (fnDecls s.recs) nm).map fun start => ⟨start, fnExecuted s.recs nm⟩ :=
+  get?_fnTable (fnExecuted s.recs) (fnDecls s.recs) nm
+
+/-- Record order inside a section does not change what the section says about functions: any
+permutation of the records (FN before or after FNDA, interleaved with anything). -/
+theorem C04_function_order_irrelevant (branch : Bool) (s : Section) (recs' : List Rec)
+    (p : s.recs.Perm recs') (hn : (fnNames s.recs).Nodup) (nm : Bytes) :
+    get? (sem branch s).functions nm = get? (sem branch { s with recs := recs' }).functions nm :=
+  semFunctions_perm s.recs recs' p hn nm
+
+/-- **Record order is irrelevant.** Two well-formed sections that differ by a permutation of their
+records (DA, BRDA, FN, FNDA, others – any interleaving) are read to the same data: the same count
+for every line, the same vector for every branch line, the same start line and executed flag for
+every function. -/
+theorem C04_order_irrelevant (branch : Bool) (eol : Bytes) (heol : eol = [LF] ∨ eol = [CR, LF])
+    (s : Section) (recs' : List Rec) (p : s.recs.Perm recs') (hw : s.WellFormed) :
+    ∃ c c', parse branch (render eol [s]) = .ok [(utf8Lossy s.sf, c)]
+      ∧ parse branch (render eol [{ s with recs := recs' }]) = .ok [(utf8Lossy s.sf, c')]
+      ∧ SameData c c' := by
+  refine ⟨sem branch s, sem branch { s with recs := recs' }, ?_, ?_, ?_⟩
+  · exact parse_render branch eol heol [s] (by simpa using hw)
+  · exact parse_render branch eol heol [{ s with recs := recs' }]
+      (by simpa using wellFormed_perm s recs' p hw)
+  · refine ⟨fun l => daFold_lines_perm _ _ (p.filterMap _) l, fun l => ?_,
+      fun n => semFunctions_perm s.recs recs' p hw.2.1 n⟩
+    cases branch
+    · rfl
+    · exact C04_branch_order_irrelevant _ _ (p.filterMap _) l
+
+/-- the witness of the former finding C04-fnda-before-fn: `SF:a⏎FNDA:1,f⏎FN:1,f⏎e⏎` -/
 def witnessFndaFirst : Section :=
   { pre := [], sf := [97], eor := [],
     recs := [Rec.fnda ⟨49, []⟩ [102], Rec.fn ⟨49, []⟩ [102]] }
 
-/-- The guard is necessary: a well-formed section in which an FNDA precedes its FN is rejected
-(`Err(Parse)`), although the records name a declared function. Bytes: `SF:a⏎FNDA:1,f⏎FN:1,f⏎e⏎`. -/
-theorem C04_fidelity_needs_fn_before_fnda :
-    semAll true [witnessFndaFirst] = none ∧
-    parse true (render [LF] [witnessFndaFirst]) = .err "Parse" := by
+/-- non-vacuity of `WellFormed`, and the old witness: the section is well-formed and is now read to
+the function `f`, start line 1, executed (the reader used to answer `Err(Parse)`) -/
+example : witnessFndaFirst.WellFormed ∧
+    parse true (render [LF] [witnessFndaFirst])
+      = .ok [([97], { lines := [], branches := [], functions := [([102], ⟨1, true⟩)] })] := by
+  refine ⟨⟨⟨by simp [witnessFndaFirst], by simp [witnessFndaFirst, noEol, LF, CR], ?_, by simp [witnessFndaFirst, noLF]⟩,
+    by decide, by decide⟩, by decide +kernel⟩
+  intro r hr
+  simp only [witnessFndaFirst, List.mem_cons, List.not_mem_nil, or_false] at hr
+  rcases hr with hr | hr <;> subst hr <;>
+    refine ⟨⟨by decide, by simp, by decide⟩, ?_⟩ <;> (intro x hx; simp at hx; subst hx; decide)
+
+/-- the witnesses of the former finding C04-da-checksum-read-as-record: in
+`SF:a⏎DA:1,5,eAbCd⏎DA:2,3,SFxyz⏎e⏎` the checksum `eAbCd` used to end the section and `SFxyz` used to
+open a file "yz"; both lines are now plain DA records -/
+example : parse true
+    [83, 70, 58, 97, 10, 68, 65, 58, 49, 44, 53, 44, 101, 65, 98, 67, 100, 10,
+     68, 65, 58, 50, 44, 51, 44, 83, 70, 120, 121, 122, 10, 101, 10]
+    = .ok [([97], { lines := [(1, 5), (2, 3)], branches := [], functions := [] })] := by decide +kernel
+
+/-- an FNDA without any FN in its section: `SF:a⏎FNDA:1,f⏎e⏎` is rejected -/
+example : parse true [83, 70, 58, 97, 10, 70, 78, 68, 65, 58, 49, 44, 102, 10, 101, 10] = .err "Parse" := by
   decide +kernel
 
 /-- What a section's records say about a line, in any order: the clamped sum of the DA counts
